@@ -516,6 +516,45 @@ class C13(PropBase):
         callee = ",".join("%s=%d" % (n, rng.range(1000, 9999)) for n in saved)
         return "Q %s %s%s" % (callee, ";".join(lines), " arm" if arm else "")
 
+    def unloaded_overlap_case(self, rng):
+        """frames that lie in no loaded module but in 2..6 overlapping UNLOADED modules with different names (the context frame
+        of one thread; CFI caller frames of another, whose return addresses point there): the per-frame list of unloaded
+        modules + offsets must come out in one order"""
+        cpu = rng.choice(["amd64", "x86", "arm64"])
+        bits, ips, sps, fps, lrs, pre = CPUS[cpu]
+        w = bits // 8
+        sp = pre + sps[0]
+        base, size = 0x400000, 0x10000
+        ubase = 0x700000
+        toks = ["cpu=" + cpu, "os=" + rng.choice(["win", "win", "linux", "mac"]), "opt=%d" % rng.below(3)]
+        text = ("MODULE Linux %s 000000000000000000000000000000000 live\nFUNC 0 %x 0 live_fn\nSTACK CFI INIT 0 %x .cfa: %s %d + .ra: .cfa %d - ^\n"
+                % (cpu, size, size, sp, 2 * w, w))
+        toks.append("S=" + hx(text.encode()))
+        toks.append("M=%d:%d:%s:0" % (base, size, hx(b"/lib/live.so")))
+        names = []
+        while len(names) < rng.range(2, 6):
+            n = rng.choice(["gone", "old", "plugin", "Zed", "a", "b", "unl", "x"]) + rng.choice(["", "1", "2", "_v2"]) + rng.choice([".dll", ".so"])
+            if n not in names:
+                names.append(n)
+        for n in names:
+            ub = ubase - 0x1000 * rng.below(4)
+            toks.append("U=%d:%d:%s" % (ub, 0x20000 + 0x1000 * rng.below(8), hx(n.encode())))
+            if rng.chance(1, 4):
+                toks.append("U=%d:%d:%s" % (ub + 0x100, 0x20000, hx(n.encode())))     # the same name twice: two offsets
+        for t in range(rng.range(1, 3)):
+            sb = 0x20000 + t * 0x10000
+            words = []
+            for k in range(8):
+                words.append(ubase + 0x100 + rng.below(0x8000) if k % 2 else sb + w * (k + 2))
+            stack = b"".join((x & ((1 << bits) - 1)).to_bytes(w, "little") for x in words)
+            ip = ubase + 0x40 + rng.below(0x4000) if (t == 0 or rng.chance(1, 2)) else base + 0x40 + 4 * rng.below(0x40)
+            regs = ["%s=%d" % (n, ip) for n in ips]
+            regs += ["%s=%d" % (n, sb) for n in sps]
+            regs += ["%s=%d" % (n, sb + 2 * w) for n in fps]
+            regs += ["%s=%d" % (n, base + 0x80) for n in lrs]
+            toks.append("T=%d:%d:%s:%s" % (t + 1, sb, hx(stack), ",".join(regs)))
+        return " ".join(toks)
+
     def adaptive_case(self, rng):
         """A: 2..5 adaptive walks (decision trees of depth <= 4 over 2..5 modules: the next module depends on whether the last
         lookup found symbols) on ONE real Symbolizer with a scripted supplier (0..3 suspensions, all five outcomes), polled in
@@ -651,7 +690,7 @@ class C13(PropBase):
         n_q = n_r // 3
         for _ in range(n_q):
             cases.append(self.cfi_q_case(rng))
-        dist["Q_cfi_rule_order_arm64"] = n_q
+        dist["Q_cfi_rule_order_arm64_arm"] = n_q
         for _ in range(n_q):
             cases.append(self.adaptive_case(rng))
         dist["A_adaptive_walks_explicit_schedule"] = n_q
